@@ -15,7 +15,7 @@ from . import ops as O
 
 INF = 1 << 62
 TOOL = 4
-OP_BUDGET = 50_000_000
+OP_BUDGET = 30_000_000
 
 E = sys.monitoring.events
 
